@@ -1526,6 +1526,13 @@ func (cs *clientStream) encodeAndWriteHeaders(req *http.Request, dumps []*dump.D
 	hasTrailers := trailers != ""
 	contentLen := actualContentLength(req)
 	hasBody := contentLen != 0
+	if !hasBody {
+		// writeRequest writes nothing after the header block of a request
+		// without a body (writeRequestBody, which sends the trailers, is not
+		// called): no trailer section is announced and the header block has
+		// to carry END_STREAM, or the stream is never closed from this side.
+		trailers, hasTrailers = "", false
+	}
 	hdrs, err := cc.encodeHeaders(req, cs.requestedGzip, trailers, contentLen, dumps)
 	if err != nil {
 		return err
